@@ -137,10 +137,17 @@ pub open spec fn branch_deleted(fp: FilePatch<&[u8]>, pre: ModifiedFile, d: Patc
 
 /// C04 vocabulary: what `apply` (normal mode) guarantees about report and file
 pub open spec fn apply_post(fp: FilePatch<&[u8]>, pre: ModifiedFile, d: PatchDirection, fuzz: usize, r: FilePatchApplyReport, post: ModifiedFile) -> bool {
+    apply_content(fp, pre, d, fuzz, r, post) && apply_record(pre, r)
+}
+/// what the application does to the file and what the hunk reports say (C03, C01, C04)
+pub open spec fn apply_content(fp: FilePatch<&[u8]>, pre: ModifiedFile, d: PatchDirection, fuzz: usize, r: FilePatchApplyReport, post: ModifiedFile) -> bool {
     &&& r.direction == d && r.fuzz == fuzz
     &&& branch_core(fp, pre, d, fuzz, ApplyMode::Normal, r.hunk_reports@, r.any_failed, post.content@, post.deleted)
     &&& post.existed == pre.existed
     &&& post.permissions == perms_after(fp, d, pre.permissions)
+}
+/// what the report remembers of the previous state, for a later rollback only (C04)
+pub open spec fn apply_record(pre: ModifiedFile, r: FilePatchApplyReport) -> bool {
     &&& r.previous_permissions == pre.permissions
     &&& r.previous_deleted == pre.deleted
 }
